@@ -322,6 +322,7 @@ func handleSessionManagerHotRestart(sm *SessionManager, params interface{}) {
 	hParams := params.(*sessionManagerHotRestartParams)
 	// the event was read before the manager was closed, or before the session which received it was closed.
 	if sm.ctx.Err() != nil || hParams.session.IsClosed() {
+		verifTrace("MIgnore", sm, hParams.session, int64(hParams.epoch), 0)
 		return
 	}
 	if sm.state == hotRestartState && sm.epoch != hParams.epoch {
